@@ -329,6 +329,13 @@ H("udp_recv_ctrl_capacity", ["C19"], "quick", "unix::recv_ctrl_capacity",
   ["cmsg::LEN (receive control buffer)", "cmsg::Encoder::push (capacity assertion)", "decode_recv", "ControlMetadata::decode"],
   "every subset of {SCM_TIMESTAMPNS timespec, UDP_GRO c_int} followed by {in_pktinfo, IP_TOS u8} or {in6_pktinfo, IPV6_TCLASS c_int}, every value; WHICH messages the kernel attaches is a model of Linux written in the harness (FFI)",
   crate="quinn_udp")
+H("udp_prepare_msg_encoding", ["C19"], "quick", "unix::prepare_msg_encoding",
+  [("dst_v6", "bool"), ("mapped", "bool"), ("dst", "[u8; 4]"), ("port", "u16"), ("ecn", "u8"), ("len", "usize"), ("has_seg", "bool"), ("seg", "usize"),
+   ("src_kind", "u8"), ("src4", "[u8; 4]"), ("src6", "[u8; 16]"), ("einval", "bool")], 20,
+  ["reached", "TOS/TCLASS", "UDP_SEGMENT", "IPv4 source", "IPv6 source"],
+  ["prepare_msg", "gso::set_segment_size", "Transmit::effective_segment_size", "cmsg::Encoder", "cmsg::Iter", "cmsg::decode", "EcnCodepoint::from_bits"],
+  "every destination (IPv4 / IPv4-mapped / IPv6, any port), every ECN codepoint or none, payload 1..=64 bytes, every segment size, explicit IPv4 / IPv6 source or none, sendmsg_einval on/off",
+  crate="quinn_udp")
 H("udp_effective_segment_size", ["C19"], "quick", "effective_segment_size",
   [("len", "u16"), ("has_seg", "bool"), ("seg", "usize")], 4, ["plain send", "segmented"],
   ["Transmit::effective_segment_size"], "every payload length: u16, every segment size: usize", crate="quinn_udp")
